@@ -605,7 +605,7 @@ fn vault_history(acc: &mut Acc, r: &mut Rng, steps: u64) {
 }
 
 pub fn run(ctx: &Ctx) -> (CheckMeta, Acc) {
-    let n = ctx.tier.pick(30, 1200);
+    let n = ctx.tier.pick(60, 3000);
     let steps = ctx.tier.pick(40, 80);
     let ph = hash_str("C17");
     let total = run_shards(ctx, 16, |sh, acc| {
